@@ -353,6 +353,9 @@ func (r *Reader) read(iop *IOPlan) ([]byte, error) {
 				readBuffer,
 				r.fileBuffer)
 
+			// the part of the result buffer this file can fill: readBackward reports every live record of
+			// the chunks it read, which can be more than was still missing
+			missing := bytesLeftToFill
 			bytesLeftToFill -= bytesRead
 			if iop.RecordType == utilsio.VARIABLE {
 				// If we've added data to the buffer from this file, record it for possible later use
@@ -361,7 +364,9 @@ func (r *Reader) read(iop *IOPlan) ([]byte, error) {
 					// read enough amount of records
 					if bytesLeftToFill < 0 {
 						bytesLeftToFill = 0
-						bufMetaLen = int32(len(resultBuffer))
+						// this file's own records are the first `missing` bytes; the rest of the buffer
+						// holds the index records already copied from later year files
+						bufMetaLen = missing
 					}
 					bufMeta = append(bufMeta, bufferMeta{
 						FullPath:  fp[i].FullPath,
